@@ -12,6 +12,8 @@ THEOREMS = [
     "Remoc.Wire.ids_to_v3_peer",
     "Remoc.Wire.unframe_frame",
     "Remoc.Wire.unframe_incomplete",
+    "Remoc.Wire.stream_roundtrip",
+    "Remoc.Wire.stream_oversize_refused",
     "Remoc.Wire.encode_length_fixed",
     "Remoc.Wire.frame_fits_partial",
     "Remoc.Wire.frame_fits_fails_with_ids",
